@@ -628,6 +628,13 @@ func (c *Cluster) serve(rs *RS, sc *ServerConn, req *Request, name []byte) {
 	}
 }
 
+// ForgetProcs makes the master forget every procedure (as after a master restart): polls are answered NOT_FOUND.
+func (c *Cluster) ForgetProcs() {
+	c.mu.Lock()
+	c.procs = map[uint64]int{}
+	c.mu.Unlock()
+}
+
 // serveMaster: the few MasterService calls of the admin client. Table operations are procedures: the answer carries a
 // procedure id; getProcedureResult says RUNNING for ProcPolls polls, then FINISHED (or what ProcOutcome says).
 func (c *Cluster) serveMaster(rs *RS, sc *ServerConn, req *Request) {
